@@ -820,6 +820,7 @@ def create_binary_event_files(event_file,
                 os.remove(os.path.join(path_name, file_name))
 
     number_events = 0
+    errors = []
 
     with multiprocessing.Pool(n_jobs) as pool:
 
@@ -830,7 +831,11 @@ def create_binary_event_files(event_file,
                 number_events += result  # pylint: disable=undefined-variable
                 pool.close()
             else:
-                raise error
+                # raising here would only kill the result handler thread of
+                # the pool and block the caller forever; remember the error,
+                # stop submitting jobs and raise it in the calling thread
+                errors.append(error)
+                pool.close()
 
         def _callback(result):
             nonlocal number_events
@@ -886,6 +891,8 @@ def create_binary_event_files(event_file,
         pool.join()
         if verbose:
             print("finished all jobs.\n")
+    if errors:
+        raise errors[0]
     return number_events
 
 # for example code see function test_preprocess in file
